@@ -251,6 +251,11 @@ def run(ctx):
     rule_S4(ctx)
     rule_S5(ctx)
     rule_S6(ctx)
+    # the clade sets that are counted: tree.utils.get_clades / _clades against the reference semantics
+    from ._treespec import rule_TS
+
+    n = rule_TS(ctx, owners=["tree.utils"])
+    ctx.rule_min["TS"] = 4
 
 
 _C = "phyclone/process_trace/consensus.py"
